@@ -181,6 +181,10 @@ class Path:
 LAST_FAIL: dict[str, Any] = {}
 
 
+class HarnessError(Exception):
+    """A defect of the verification machinery (never a verdict about the code under test)."""
+
+
 def _load_known() -> set[str]:
     import re
 
